@@ -28,6 +28,12 @@ pub struct Scn {
     /// MUL/DIV operand plane: (opcode, value of Rd); Rs is swept over 0..=255 inside
     #[serde(default)]
     pub plane: Option<(u8, u8)>,
+    /// history mode: ONE machine is stepped in Assembly mode through the whole run (events are timed
+    /// in steps), a shadow in Real mode is clocked to the next boundary for every step, and the two
+    /// must agree after every step - state that a Machine carries from one assembly step to the next
+    /// (across halts, CONTINUE, resets, undefined opcodes) cannot hide in a fork that is thrown away
+    #[serde(default)]
+    pub hist: bool,
 }
 
 /// more raw edges than any instruction plus an interrupt entry needs
@@ -194,6 +200,47 @@ fn run(scn: &Scn, ctx: &mut Ctx) -> Result<(), Violation> {
         return run_plane(op, a, scn.only, ctx);
     }
     let s = &scn.seq;
+    if scn.hist {
+        let mut a = s.setup.build();
+        a.set_step_mode(StepMode::Assembly);
+        let mut b = s.setup.build();
+        b.set_step_mode(StepMode::Real);
+        let mut next = 0usize;
+        for t in 0..s.max_edges {
+            while next < s.events.len() && s.events[next].0 <= t {
+                let st = &s.events[next].1;
+                next += 1;
+                if let Stim::Mode(_) = st {
+                    continue;
+                }
+                st.apply(&mut a);
+                st.apply(&mut b);
+                ctx.cov.fault(st.kind());
+                if !same_but_mode(&a, &b) {
+                    return Err(v("stimulus-depends-on-step-mode", t, format!("history: {} applied in Assembly step mode leaves a different machine than in Real mode: {}", st.kind(), first_diff(&a, &b))));
+                }
+            }
+            ctx.cov.evaluations += 1;
+            a.trigger_key_clock();
+            let (reached, n) = real_step(&mut b).map_err(|e| v("clock-stepping", t, e))?;
+            ctx.cov.sim_edges += 2 * n as u64;
+            ctx.cov.probe(match reached {
+                Reached::Boundary => "history:to-boundary",
+                Reached::Halt => "history:halt-ends-step-early",
+                Reached::FixedPoint => "history:undefined-opcode-fixed-point",
+                Reached::AlreadyHalted => "history:already-halted",
+            });
+            if !same_but_mode(&a, &b) {
+                return Err(v(
+                    "asm-step-differs",
+                    t,
+                    format!("history: assembly step {} of one machine differs from {} single clock edges of its shadow to the next {:?}: {}", t + 1, n, reached, first_diff(&a, &b)),
+                ));
+            }
+            ctx.tr(mix(t as u64, a.registers().content()[3] as u64));
+        }
+        return Ok(());
+    }
     let mut r = s.setup.build();
     r.set_step_mode(StepMode::Real);
     let mut next = 0usize;
@@ -263,12 +310,12 @@ impl Check for C11 {
                 bytes.push(0x90);
             }
             bytes.extend_from_slice(&[0x02, 0x02, 0x01]);
-            return Scn { seq: SeqScn { setup: Setup::plain(bytes, 0, Some(0xFF)), events: vec![], max_edges: 24 }, chain: 2, only: None, plane: None };
+            return Scn { seq: SeqScn { setup: Setup::plain(bytes, 0, Some(0xFF)), events: vec![], max_edges: 24 }, chain: 2, only: None, plane: None, hist: false };
         }
         if idx < SWEEP + PLANES {
             let j = idx - SWEEP;
             let op = if j < 256 { 0xC4 } else { 0xB4 }; // DIV R0,R1 / MUL R0,R1
-            return Scn { seq: SeqScn { setup: Setup::plain(vec![], 0, Some(0xFF)), events: vec![], max_edges: 0 }, chain: 1, only: None, plane: Some((op, (j % 256) as u8)) };
+            return Scn { seq: SeqScn { setup: Setup::plain(vec![], 0, Some(0xFF)), events: vec![], max_edges: 0 }, chain: 1, only: None, plane: Some((op, (j % 256) as u8)), hist: false };
         }
         let kind = rng.below(10);
         let (bytes, stack, limit) = match kind {
@@ -293,7 +340,8 @@ impl Check for C11 {
         }
         regs[3] = 0;
         regs[5] = gen::valid_sp(rng, stack);
-        let max_edges = 150 + rng.below(900) as u32;
+        let hist = idx % 4 == 1;
+        let max_edges = if hist { 20 + rng.below(160) as u32 } else { 150 + rng.below(900) as u32 };
         let nev = rng.below(8);
         let mut events: Vec<(u32, Stim)> = (0..nev)
             .map(|_| {
@@ -317,6 +365,7 @@ impl Check for C11 {
             chain: 1 + rng.below(3) as u32,
             only: None,
             plane: None,
+            hist,
         }
     }
     fn execute(&self, scn: &Scn, ctx: &mut Ctx) -> Result<(), Violation> {
@@ -324,7 +373,7 @@ impl Check for C11 {
     }
     fn shrink(&self, scn: &Scn, v: &Violation) -> Vec<Scn> {
         let mut out = vec![];
-        if scn.only.is_none() {
+        if scn.only.is_none() && !scn.hist {
             if let Some(e) = crate::engine::edge_of(&v.detail) {
                 let mut c = scn.clone();
                 c.only = Some(e);
@@ -341,12 +390,12 @@ impl Check for C11 {
         }
         out.extend(shrink_seq(&scn.seq, v).into_iter().map(|s| {
             let only = scn.only.filter(|o| *o < s.max_edges);
-            Scn { seq: s, chain: scn.chain, only, plane: scn.plane }
+            Scn { seq: s, chain: scn.chain, only, plane: scn.plane, hist: scn.hist }
         }));
         out
     }
     fn rule(&self) -> String {
-        "Sweep: every first opcode byte at the program counter (and every second byte for 0xF0-0xFF), forked at each of the first 24 edges. Sampled: hazard programs, interrupt programs with key presses, opcode-biased and uniform random images, with key/continue/reset/input stimuli on arbitrary edges; the fork oracle runs at EVERY clock edge of every run with chains of 1-3 assembly steps. evaluations = forks; distinct = distinct (opcode class in IR, at-boundary?, halted?, interrupt pending?, how the step ended) fork phases.".into()
+        "Sweep: every first opcode byte at the program counter (and every second byte for 0xF0-0xFF), forked at each of the first 24 edges. Sampled: hazard programs, interrupt programs with key presses, opcode-biased and uniform random images, with key/continue/reset/input stimuli on arbitrary edges; the fork oracle runs at EVERY clock edge of every run with chains of 1-3 assembly steps. One sampled run in four is a history instead: one machine is stepped in Assembly mode 20-180 times with the stimuli landing between steps, next to a Real-mode shadow clocked to the next boundary for every step; both must agree after every step and every stimulus. evaluations = forks (history: steps); distinct = distinct (opcode class in IR, at-boundary?, halted?, interrupt pending?, how the step ended) fork phases.".into()
     }
     fn assumptions(&self) -> Vec<String> {
         vec![
@@ -366,7 +415,7 @@ impl Check for C11 {
         })
     }
     fn must_fire(&self, _tier: Tier) -> Vec<String> {
-        ["fork:to-boundary", "fork:halt-ends-step-early", "fork:undefined-opcode-fixed-point", "fork:already-halted", "fork:mid-instruction", "fork:interrupt-pending"].iter().map(|s| s.to_string()).collect()
+        ["fork:to-boundary", "fork:halt-ends-step-early", "fork:undefined-opcode-fixed-point", "fork:already-halted", "fork:mid-instruction", "fork:interrupt-pending", "history:to-boundary", "history:halt-ends-step-early", "history:undefined-opcode-fixed-point", "history:already-halted"].iter().map(|s| s.to_string()).collect()
     }
     fn exhaustive_dims(&self, _tier: Tier) -> Vec<String> {
         vec!["fork point: every clock edge of each run".into(), "opcode byte at PC 0..255 (x second byte 0..255)".into()]
